@@ -11,7 +11,7 @@ register(Prop(
     spec_total=False, unspecified=_pb.overlap_episode,
     classes={'empty_level': _pb.has_empty_level},
     assumptions=[
-        "concurrent runs are unserialised real executions (2-8 publishers, payloads up to 7000 bytes through a 16 KiB outgoing ring so packets wrap mid-packet); they sample interleavings, the theorem quantifies over all of them",
+        "concurrent runs are unserialised real executions (2-8 publishers, payloads up to 7000 bytes through a 16 KiB outgoing ring so packets wrap mid-packet; `conc srv`: 2-8 goroutines calling Server.Publish at the same time); they sample interleavings, the theorem quantifies over all of them",
         "the wrap path is modelled over a finite ring of 2^k cells with one consumer (Model/WriteWrap.lean); a whole-packet copy is one model step and WriteWait is simply disabled while the ring is full - the ring's condition variables, gate cache and Close are Core D (C14/C15)",
         "the statement-level shape of writeMessage (growth test, Encode(svc.outtmp[0:]), Write(svc.outtmp[0:n]), Encode(buf[0:]), WriteCommit(n), Len/Lock/defer Unlock/WriteWait order) is regenerated on every check and equated with the model's step table",
         "that no write to a connection bypasses wmu is a lock-discipline fact (regenerated; C18)",
